@@ -4,6 +4,7 @@ Everything is decided on the syntax tree with sa/cfgwalk.py: `facts` = branch co
 path to a statement, `done` = statements completed on every path to it.  Nothing of cyecca is imported or run.
 """
 import ast
+import copy
 
 from ..cfgwalk import (Flow, Locals, FUNCS, unp, qualname, enclosing_function, enclosing_class,
                        enclosing_stmt, canon_cmp, linform, parents, assigned_locs, mentions)
@@ -958,6 +959,59 @@ def eqs_call(flow, key):
     return out
 
 
+def expand_helpers(cls, expr, depth=0):
+    """`self.<m>(args)` where method m of the class is a single `return <expr>` (docstring aside): the returned
+    expression with the parameters replaced by the arguments.  A gate moved into a helper stays the same gate."""
+    if depth > 3:
+        return expr
+    table = methods_of(cls)
+
+    class T(ast.NodeTransformer):
+        def visit_Call(self, node):
+            self.generic_visit(node)
+            f = node.func
+            if isinstance(f, ast.Attribute) and isinstance(f.value, ast.Name) and f.value.id == "self" and f.attr in table and not node.keywords:
+                m = table[f.attr]
+                body = [b for b in m.body if not (isinstance(b, ast.Expr) and isinstance(b.value, ast.Constant))]
+                ps = [a.arg for a in m.args.args][1:]
+                if len(body) == 1 and isinstance(body[0], ast.Return) and body[0].value is not None and len(ps) == len(node.args) and not m.args.vararg and not m.args.kwarg \
+                        and not any(isinstance(a, ast.Starred) for a in node.args):
+                    sub = dict(zip(ps, node.args))
+
+                    class S(ast.NodeTransformer):
+                        def visit_Name(self, n):
+                            return ast.copy_location(copy.deepcopy(sub[n.id]), n) if n.id in sub and isinstance(n.ctx, ast.Load) else n
+                    out = S().visit(copy.deepcopy(body[0].value))
+                    for x in ast.walk(out):
+                        ast.copy_location(x, node)
+                    return expand_helpers(cls, out, depth + 1)
+            return node
+    return T().visit(copy.deepcopy(expr))
+
+
+def split_fact(cond, pol):
+    """A fact `cond is pol` as a list of (comparison, polarity) facts when it is a conjunction that way:
+    not (a or b) -> not a, not b;  (a and b) -> a, b;  not not a -> a."""
+    if isinstance(cond, ast.UnaryOp) and isinstance(cond.op, ast.Not):
+        return split_fact(cond.operand, not pol)
+    if isinstance(cond, ast.BoolOp) and ((isinstance(cond.op, ast.And) and pol) or (isinstance(cond.op, ast.Or) and not pol)):
+        return [x for v in cond.values for x in split_fact(v, pol)]
+    return [(cond, pol)]
+
+
+def cmp_forms(cls, loc, f, inline=True):
+    """canon_cmp forms of the comparisons a fact amounts to (helpers expanded, conjunctions split)."""
+    e = expand_helpers(cls, f.cond)
+    if inline:
+        e = loc.inline(e, f.cond.lineno)
+    out = []
+    for c0, p0 in split_fact(e, f.pol):
+        c = canon_cmp(c0, p0)
+        if c is not None:
+            out.append(c)
+    return out
+
+
 def stamp_updates(cx, fn, attr_text, tkey):
     """Events `self.<attr> = <time of this message>` in fn."""
     out = []
@@ -999,10 +1053,9 @@ def rule_estimator(cx, ptable):
         rep.ok(R_P, I2, fact={"definition": unp(d) if d is not None else unp(a)})
         guard = None
         offset = 0.0
-        for f in pev.facts:
-            cc = canon_cmp(loc.inline(f.cond, f.cond.lineno), f.pol)
+        for f, cc in [(f, cc) for f in pev.facts for cc in cmp_forms(cls, loc, f)]:
             la = linform(loc.inline(a, f.cond.lineno))
-            if cc is None or None in la or not set(la) <= set(cc[0]):
+            if None in la or not set(la) <= set(cc[0]):
                 continue
             ks = {round(cc[0][x] / la[x], 9) for x in la}
             if len(ks) != 1:
@@ -1050,6 +1103,7 @@ def rule_estimator(cx, ptable):
                 rep.check(R_P, I3, bool(ups), "`%s = <message time>` is not executed (after the step is computed) on every path to predict: the step stops being the time since the previous sample" % last,
                           where=cx.where(rel, pcall))
     # ---- rate limits
+    n_stale = []
     for sensor, meth, key in (("accel", "imu_callback", "correct_accel"), ("mag", "mag_callback", "correct_mag")):
         fn = cx.fe.find_def(rel, "AttitudeEstimator.%s" % meth)
         fl, loc = cx.flow(fn), cx.locs(fn)
@@ -1067,11 +1121,11 @@ def rule_estimator(cx, ptable):
             if isinstance(e.node, ast.Assign) and id(e.node) in cev.done:
                 held += [x for x in e.facts if mentions(x.cond, assigned_locs([e.node]))]
         for f in held:
-            c = canon_cmp(loc.inline(f.cond, f.cond.lineno), f.pol)
-            if c is not None and any(a and a.endswith(".get()") for a in c[0]) and tkey in c[0]:
-                cands.append((f, c[0], c[1]))
+            for c in cmp_forms(cls, loc, f):
+                if any(a and a.endswith(".get()") for a in c[0]) and tkey in c[0]:
+                    cands.append((f, c[0], c[1]))
         if not cands:
-            vague = [f for f in cev.facts if canon_cmp(f.cond, f.pol) is not None and ("t_last" in unp(f.cond) or "dt_min" in unp(f.cond))]
+            vague = [f for f in cev.facts if cmp_forms(cls, loc, f, inline=False) and ("t_last" in unp(expand_helpers(cls, f.cond)) or "dt_min" in unp(expand_helpers(cls, f.cond)))]
             # elapsed time computed into a local and the time stamp overwritten with the message time before the gate:
             # the gate then measures the time since the previous MESSAGE, not since the previous correction
             stale = None
@@ -1087,10 +1141,12 @@ def rule_estimator(cx, ptable):
                             if d.lineno < e.node.lineno <= f.cond.lineno and not any(mentions(x.cond, {("n", nm.id)}) or "dt_min" in unp(x.cond) for x in e.facts):
                                 stale = (f, nm.id, As[0], e)
             if stale:
+                # corrections are then at least one minimum period apart (each follows a message gap that long), so the
+                # rate limit itself holds; what is lost is the correction (C12 reads the `starves` fact)
                 f, nm, A, e = stale
-                rep.fail(R_R, I + " is rate limited", "`%s` is the time since the previous %s MESSAGE: `%s` is executed before the gate on every message, so with a minimum period longer than the sensor period "
-                         "the gate never opens and the correction is never applied (and the limit is not on the time between applied corrections)" % (nm, sensor, unp(e.node)), where=cx.where(rel, e.node),
-                         fact={"guard": f.text(), "stamp": unp(e.node)})
+                n_stale.append(sensor)
+                rep.ok(R_R, I + " is rate limited", fact={"guard": f.text(), "stamp": unp(e.node), "starves": "`%s` is the time since the previous %s MESSAGE: `%s` is executed before the gate on every message, so with a minimum "
+                       "period longer than the sensor period the gate never opens and the correction is never applied" % (nm, sensor, unp(e.node)), "starves_where": list(cx.where(rel, e.node))})
             elif vague:
                 rep.incomplete(R_R, I + " is rate limited", "cannot interpret the guard %s" % vague[0].text(), where=cx.where(rel, vague[0].stmt))
             else:
@@ -1147,12 +1203,26 @@ def rule_estimator(cx, ptable):
         others = [b for b in self_assigns(cls, A[5:]) if enclosing_function(b).name != "__init__" and b not in [e.node for e in same]]
         I3 = I + " records %s = t together with the correction" % A
         if not same:
-            rep.fail(R_R, I3, ("`%s = t` is not on exactly the paths that run the correction (it is %s)" % (A, "conditional on " + " and ".join(x.text() for x in ups[0].facts if x.key() not in ctx(cev)) if ups else "missing"))
-                     if ups else "%s is never set to the message time in %s: after the first correction every message is corrected" % (A, meth), where=cx.where(rel, ups[0].node if ups else ccall))
+            def no_exit_between(a, b):
+                return not any(isinstance(x, (ast.Return, ast.Raise, ast.Continue, ast.Break, ast.Yield, ast.YieldFrom)) and a.lineno <= x.lineno <= b.lineno for x in ast.walk(fn))
+            # the time stamp taken on every path that corrects AND on others: corrections stay a minimum period apart
+            # (the rate limit holds) but the gate measures the time since the previous message (C12 reads `starves`)
+            wider = [e for e in ups if ctx(e) <= ctx(cev) and e.loops == cev.loops and (id(e.node) in cev.done or (e.node.lineno > cev.node.lineno and no_exit_between(cev.node, e.node)))]
+            if wider:
+                extra = " and ".join(sorted(x.text() for x in cev.facts if x.key() not in ctx(wider[0]) and not mentions(x.cond, {("a", A)})))
+                rep.ok(R_R, I3, fact={"assignment": unp(wider[0].node), "starves": "`%s` also runs on messages that are not corrected (the correction additionally needs %s): the gate measures the time since the previous "
+                       "MESSAGE, so with a minimum period longer than the sensor period it never opens and the correction is never applied" % (unp(wider[0].node), extra or "its rate gate"),
+                       "starves_where": list(cx.where(rel, wider[0].node))})
+            elif ups:
+                rep.fail(R_R, I3, "`%s = t` is not taken on every path that runs the correction (it additionally needs %s): a correction that does not restamp is followed by the next one too early" % (
+                    A, " and ".join(x.text() for x in ups[0].facts if x.key() not in ctx(cev)) or "a different path"), where=cx.where(rel, ups[0].node))
+            else:
+                rep.fail(R_R, I3, "%s is never set to the message time in %s: after the first correction every message is corrected" % (A, meth), where=cx.where(rel, ccall))
         elif others:
             rep.incomplete(R_R, I3, "%s is also assigned by `%s`, which the rule does not model" % (A, unp(others[0])), where=cx.where(rel, others[0]))
         else:
             rep.ok(R_R, I3, fact={"assignment": unp(same[0].node)})
+    return n_stale
 
 
 # ---------------------------------------------------------------------------------------------------------
@@ -1281,14 +1351,15 @@ def run(w, rep, tier):
     all_sub = rule_logger(cx)
     ptable = rule_param_wiring(cx, all_sub)
     rule_core_attrs(cx)
-    rule_estimator(cx, ptable)
+    n_stale = rule_estimator(cx, ptable)
     rule_topics(cx)
     # vacuity guard: decided instances confirmed by hand on the tree of 2026-10-02 (usage-count rules get ~80%)
     for rule, n in (("C20.publish-typecheck", 2), ("C20.publish-fanout", 8), ("C20.registry-writes", 13), ("C20.registry-lock", 8),
                     ("C20.param-broadcast", 8), ("C20.param-wiring", 11), ("C20.logger-subscribes-all", 3), ("C20.logger-row", 4),
                     ("C20.logger-callback", 1), ("C20.core-attr-resolves", 25), ("C20.est-predict-dt", 3), ("C20.est-rate-limit", 6),
                     ("C20.topic-types", 40)):
-        rep.floor(rule, n)
+        # a gate on the message gap is decided by one instance instead of four
+        rep.floor(rule, n - 3 * len(n_stale) if rule == "C20.est-rate-limit" else n)
     rep.note("scope: %s" % ", ".join(rel for rel, _ in cx.scope()))
     rep.undecided_clause("monotonicity of core.now and the actual firing times of Timeout events are properties of simpy, not of cyecca: not decided")
     rep.undecided_clause("that callbacks return (a subscriber callback that raises aborts the fan-out) and that calls do not re-assign attributes mentioned in a recorded guard are assumed")
